@@ -102,7 +102,7 @@ impl Property for C19 {
     }
 
     fn rule(&self) -> String {
-        "a statement (plain, DISTINCT, LIMIT, aggregate, join) x an input of <= 12 lines over 1-2 files (one line in eight cases unreadable, i.e. invalid UTF-8; one case in forty repeats its lines to 4200-9000 and tries six interrupt points instead of all) x a joined file of <= 40 lines; EVERY interrupt point of the case is tried: the flag is cleared at the e-th \
+        "a statement (plain, DISTINCT, LIMIT, aggregate, join) x an input of <= 12 lines over 1-2 files (one line in eight cases unreadable, i.e. invalid UTF-8; one case in forty repeats its lines to 4200-9000 and tries six interrupt points instead of all; one in forty is a GROUP BY over 300-1800 lines with hundreds of groups) x a joined file of <= 40 lines; EVERY interrupt point of the case is tried: the flag is cleared at the e-th \
          `file_line` probe (before line e is taken), at the e-th `join_line` probe (while the joined file is loaded) and after the j-th printed record. Oracle against the uninterrupted run: execute() is Ok; \
          no input line is consumed after the flag is cleared (total_lines = e-1 / unchanged; at most 10 further joined-file lines while loading); the captured output is a prefix of the uninterrupted output; \
          an interrupted aggregate prints the table a fresh batch run prints for exactly the consumed lines. A slice of cases also runs through the real FollowFileExecutor in a child process. \
@@ -136,6 +136,25 @@ impl Property for C19 {
     }
 
     fn generate(&self, t: &mut Tape, ctx: &Ctx) -> Case {
+        if t.chance(1, 40) {
+            // an aggregate whose table has hundreds of groups when the interrupt comes
+            let table = DataTable { name: "t".into(), json: t.chance(1, 2), cols: vec![("c0".to_string(), Ty::Int), ("c1".to_string(), Ty::Int)], not_null: None };
+            let n = 300 + t.draw(1500);
+            let modulus = 280 + t.draw(1500) as i64;
+            let step = 1 + t.draw(97) as i64;
+            let offset = t.draw(1000) as i64;
+            let lines: Vec<String> = (0..n as i64).map(|i| table.line(&[crate::value::V::Int((i * step + offset) % modulus), crate::value::V::Int(i % 7)], t)).collect();
+            let mut query = Select::simple(vec![(crate::sql::E::col("c0"), None)], "t");
+            query.items.push((crate::sql::E::Agg("COUNT".into(), false, vec![crate::sql::E::Star]), Some("n".into())));
+            if t.chance(1, 2) {
+                query.items.push((crate::sql::E::Agg("SUM".into(), false, vec![crate::sql::E::col("c1")]), Some("s".into())));
+            }
+            query.group_by.push(crate::sql::E::col("c0"));
+            let mut points: Vec<usize> = (0..4).map(|_| 1 + t.draw(n)).collect();
+            points.push(n);
+            points.push(n + 1);
+            return Case { table, joined: None, query, files: vec![lines], joined_lines: Vec::new(), follow: false, bad_line: None, long: Some((1, points)) };
+        }
         let mut opts = QOpts::all();
         opts.join_share = 3;
         let g = gen_query(t, ctx, opts);
@@ -220,6 +239,9 @@ impl Property for C19 {
         }
         if repeat > 1 {
             obs.label("long-input");
+        }
+        if case.long.is_some() && repeat == 1 {
+            obs.label("many-groups");
         }
         let context = format!("query: {}\n  tables: {}\n  files: {:?}\n  unreadable line: {:?}, long input: {:?}\n  joined lines: {}", p.text, p.defs, case.files, case.bad_line, case.long, case.joined_lines.len());
         let panic_fail = |m: String| Failure::new(format!("panic: {}", crate::run::panic_class(&m)), format!("panicked: {}\n  {}", m, context));
